@@ -46,13 +46,13 @@ func (a errAbs) key() string {
 }
 
 type errEngine struct {
-	p        *load.Program
-	fsI      *types.Interface
-	fileI    *types.Interface
-	sum      map[*ssa.Function]map[string]errAbs // per function: set of abstract returned errors
-	busy     map[*ssa.Function]bool
-	osMap    map[*ssa.Function]bool // name→OS-path mapping functions
-	provBusy map[string]bool
+	p         *load.Program
+	fsI       *types.Interface
+	fileI     *types.Interface
+	sum       map[*ssa.Function]map[string]errAbs // per function: set of abstract returned errors
+	busy      map[*ssa.Function]bool
+	osMap     map[*ssa.Function]bool // name→OS-path mapping functions
+	provBusy  map[string]bool
 	provStack map[ssa.Value]bool
 }
 
